@@ -54,7 +54,16 @@ for d in sorted(glob.glob("seeded/C??-w3-?")):
     m = mall.get(seed)
     lines.append(row([seed, ", ".join(files), first3.get(seed, "?"), own3.get(seed, "?"), (m["caught"].strip() if m else "(not in matrix run)")]))
 seed3_table = "\n".join(lines)
-body = open("design_as_built.md").read().replace("@SEED3_TABLE@", seed3_table).replace("@SEED2_TABLE@", seed2_table).replace("@SEED_TABLE@", seed_table).replace("@MUTANT_TABLE@", mut_table)
+own4 = json.load(open("seeded/OWN-w4.json")) if os.path.exists("seeded/OWN-w4.json") else {}
+first4 = json.load(open("seeded/OWN-w4-first.json")) if os.path.exists("seeded/OWN-w4-first.json") else {}
+lines = [row(["seed", "what was changed (file)", "own property, first evaluation", "own property now (quick)"]), "|---|---|---|---|"]
+for d in sorted(glob.glob("seeded/C??-w4-?")):
+    seed = os.path.basename(d)
+    patch = open(f"{d}/patch.diff").read()
+    files = sorted(set(re.findall(r"^\+\+\+ b/(\S+)", patch, re.M)))
+    lines.append(row([seed, ", ".join(files), first4.get(seed, "?"), own4.get(seed, "?")]))
+seed4_table = "\n".join(lines)
+body = open("design_as_built.md").read().replace("@SEED3_TABLE@", seed3_table).replace("@SEED4_TABLE@", seed4_table).replace("@SEED2_TABLE@", seed2_table).replace("@SEED_TABLE@", seed_table).replace("@MUTANT_TABLE@", mut_table)
 d = open("DESIGN.md").read()
 start = d.find("## A. As built")
 if start >= 0:
